@@ -2,5 +2,5 @@ CONSTANTS NodeId = 5  Walk = FALSE  WalkLen = 0  CfgName = "C"
 CONSTANT Groups <- GC  Dflt <- DB  Letters <- LB  ProbeLetters <- PP
 INIT Init
 NEXT Next
-VIEW View
+VIEW ViewM
 INVARIANT InvC17
